@@ -473,6 +473,20 @@ func (in *c08Inst) remove(ci int, keep func(c08Row) bool) []c08Row {
 	return gone
 }
 
+// c08WhereClass reduces "later-batch:first-copy-<mode>/<last event>" to the structural
+// part used in fingerprints: where the duplicate sits and what happened to the channel's
+// in-memory state between the two copies.
+func c08WhereClass(where string) string {
+	head, tail, ok := strings.Cut(where, ":")
+	if !ok {
+		return head
+	}
+	if _, last, ok := strings.Cut(tail, "/"); ok {
+		return head + "-after-" + last
+	}
+	return head
+}
+
 var c08ModeName = map[string]string{"s": "strict", "a": "server-allocated-id", "t": "trusted-contiguous"}
 
 func (in *c08Inst) applyAppend(p []string) (string, error) {
@@ -537,7 +551,7 @@ func (in *c08Inst) applyAppend(p []string) (string, error) {
 	m := c08ModeName[p[0]]
 	if want != "" {
 		if err == nil {
-			return "", mc.Violatef("C08:duplicate-"+want+"-accepted:"+m+":"+wantWhere,
+			return "", mc.Violatef("C08:duplicate-"+want+"-accepted:"+m+":"+c08WhereClass(wantWhere),
 				"%s: %s append accepted (%+v) although the reference already holds the %s (%s)", evl, m, res, want, wantWhere)
 		}
 		if !errors.Is(err, dberrors.ErrConflict) {
@@ -719,7 +733,7 @@ func TestVerifC08(t *testing.T) {
 	systems := []sys{
 		{&c08Cfg{"idempotency-main", false, c08AlphabetQuick}, ev.Pick(r, 4, 5), "collision alphabet (<=17 events/state)"},
 		{&c08Cfg{"idempotency-wide", false, c08AlphabetWide}, ev.Pick(r, 3, 4), "wide alphabet (<=28 events/state)"},
-		{&c08Cfg{"idempotency-filter-saturated", true, c08AlphabetSaturated}, ev.Pick(r, 2, 3), "channel A pre-loaded with 400 distinct keys through the server-allocated-id path (filter primary capacity 384), then <=13 events/state"},
+		{&c08Cfg{"idempotency-filter-saturated", true, c08AlphabetSaturated}, ev.Pick(r, 3, 4), "channel A pre-loaded with 400 distinct keys through the server-allocated-id path (filter primary capacity 384), then <=13 events/state"},
 	}
 	var total mc.Result
 	for _, s := range systems {
